@@ -444,6 +444,93 @@ alias solid1D_balance_partial := Stencil1D.solid1D_balance
 1D model (`Snow.solidStep1D`), node by node -/
 alias solid1D_is_model := Stencil1D.solidStep1D_eq_solid1D
 
+/-! ### known finding K8: the solidification scheme is not conservative across the liquidus -/
+
+/-- equilibrium ice fraction on the liquidus: `w_eq(t) = (m_w − c/(T_m − t))/m`, `c = m_s·k_f/M_s` -/
+noncomputable def wEq (mw c m Tm t : ℝ) : ℝ := (mw - c / (Tm - t)) / m
+
+/-- **capacity defect of a node that stays on the liquidus (exact linearisation term)**: the scheme
+advances the node with the apparent capacity `c_p·BETA = c_p + Δh·(c/m)/(T_m − T)²` of the OLD
+temperature; the true enthalpy change `c_p·ΔT − Δh·(w_eq(T') − w_eq(T))` differs from it by exactly
+`Δh·(c/m)·ΔT²/((T_m − T')(T_m − T)²)`, which is non-negative (second order in `ΔT`). -/
+theorem capacity_defect_on_liquidus (cp Dh mw c m Tm T T' : ℝ) (hm : m ≠ 0) (hT : Tm - T ≠ 0)
+    (hT' : Tm - T' ≠ 0) :
+    (cp * (T' - T) - Dh * (wEq mw c m Tm T' - wEq mw c m Tm T))
+        - (cp + Dh * (c / m) / ((T - Tm) * (T - Tm))) * (T' - T)
+      = Dh * (c / m) * (T' - T) ^ 2 / ((Tm - T') * ((Tm - T) * (Tm - T))) := by
+  have h2 : T - Tm ≠ 0 := fun h => hT (by linarith)
+  unfold wEq
+  field_simp
+  ring
+
+/-- **capacity defect of a node that crosses the liquidus (the K8 term)**: the step is taken with
+`BETA = 1` (no latent term) from an ice-free state; afterwards the node carries `w_eq(T') > 0`:
+the true enthalpy change is smaller than what the scheme accounted for by exactly `Δh·w_eq(T')`. -/
+theorem capacity_defect_crossing (cp Dh mw c m Tm T T' : ℝ) :
+    (cp * (T' - T) - Dh * (wEq mw c m Tm T' - 0)) - cp * 1 * (T' - T) = -(Dh * wEq mw c m Tm T') := by
+  ring
+
+/-- **`enthalpy_defect_identity`** — the remainder of the 1D solidification step identified exactly:
+for ANY post-step ice field `w'` and any `Nz ≥ 2`,
+`ρ·dz·Σ_j [c_p,j·ΔT_j − Δh·(w'_j − w_j)] = dt·(q_shelf + q_e) + (dt/dz)·R_cond + ρ·dz·Σ_j d_j`,
+with `R_cond` the conduction remainder of `solid1D_balance_partial` and
+`d_j = c_p,j·(1 − BETA_j)·ΔT_j − Δh·(w'_j − w_j)` the capacity defect of node `j`
+(`capacity_defect_on_liquidus` / `capacity_defect_crossing` evaluate it in the two cases). -/
+theorem enthalpy_defect_identity (Nz : Nat) (hNz : 2 ≤ Nz) (dt rho dz qs qe Dh : ℝ) (lam cp B col w w' : Nat → ℝ)
+    (hrho : rho ≠ 0) (hdz : dz ≠ 0) (hcp : ∀ j, j < Nz → cp j ≠ 0) (hB : ∀ j, j < Nz → B j ≠ 0)
+    (hl0 : lam 0 ≠ 0) (hlN : lam (Nz - 1) ≠ 0) :
+    let T' := solid1D Nz dt rho (dz * dz) lam cp B (col 0 + qs * dz / lam 0) (col (Nz - 1) + qe * dz / lam (Nz - 1)) col
+    rho * dz * ∑ j ∈ Finset.range Nz, (cp j * (T' j - col j) - Dh * (w' j - w j))
+      = dt * (qs + qe)
+        + dt / dz * (∑ j ∈ Finset.range Nz,
+              (lamU Nz lam j - lamL lam j)
+                * (ext Nz (col 0 + qs * dz / lam 0) (col (Nz - 1) + qe * dz / lam (Nz - 1)) col (j + 2)
+                    - ext Nz (col 0 + qs * dz / lam 0) (col (Nz - 1) + qe * dz / lam (Nz - 1)) col j) / 4
+            - ∑ j ∈ Finset.range (Nz - 1), (lam (j + 1) - lam j) * (col (j + 1) - col j))
+        + rho * dz * ∑ j ∈ Finset.range Nz, (cp j * (1 - B j) * (T' j - col j) - Dh * (w' j - w j)) := by
+  intro T'
+  have h := Stencil1D.solid1D_balance Nz hNz dt rho dz qs qe lam cp B col hrho hdz hcp hB hl0 hlN
+  rw [← h, ← mul_add, ← Finset.sum_add_distrib]
+  congr 1
+  apply Finset.sum_congr rfl
+  intro j _
+  ring
+
+/-- **`liquidus_crossing_not_conservative` (K8, concrete witness)** — two layers, insulated at both
+ends (`q_shelf = q_e = 0`), uniform conductivity (so the conduction remainder vanishes),
+`ρ = c_p = Δh = dz = 1`, `dt = 1/4`, `T_m = 0`, liquidus `w_eq(t) = 1 + 1/t` (`T_eq_l = −1`).
+Layer 0 is unfrozen at `−1/2` (`BETA = 1`), layer 1 frozen at `−4` (`BETA = 17/16`, the model's
+`1 + β/(T − T_m)²`).  One step of the 1D solidification stencil takes layer 0 to `−11/8 < T_eq_l`,
+where it is given the ice `w_eq(−11/8) = 3/11`.  No heat crosses the boundary, yet the enthalpy
+of the column changes by `−3/11 + 49/2448 ≠ 0`: minus the crossing term `Δh·w_eq(T'₀)` plus the
+(second-order, positive) linearisation term of layer 1. -/
+theorem liquidus_crossing_not_conservative :
+    let lam : Nat → ℝ := fun _ => 1
+    let cp : Nat → ℝ := fun _ => 1
+    let B : Nat → ℝ := fun j => if j = 0 then 1 else 17 / 16
+    let col : Nat → ℝ := fun j => if j = 0 then -1 / 2 else -4
+    let T' := solid1D 2 (1 / 4) 1 (1 * 1) lam cp B (col 0 + 0 * 1 / lam 0) (col 1 + 0 * 1 / lam 1) col
+    T' 0 = -11 / 8 ∧ T' 1 = -54 / 17 ∧
+    -- enthalpy after − enthalpy before (sensible + latent), boundary heat dt·(0 + 0) = 0
+    ((1 : ℝ) * (T' 0 - col 0) - 1 * (wEq 1 1 1 0 (T' 0) - 0))
+        + ((1 : ℝ) * (T' 1 - col 1) - 1 * (wEq 1 1 1 0 (T' 1) - wEq 1 1 1 0 (col 1)))
+      = -(3 / 11) + 49 / 3672
+    ∧ -(3 / 11 : ℝ) + 49 / 3672 ≠ (1 / 4) * (0 + 0)
+    -- the two parts: crossing term of layer 0, linearisation term of layer 1
+    ∧ wEq 1 1 1 0 (T' 0) = 3 / 11
+    ∧ (1 : ℝ) * (1 / 1) * (T' 1 - col 1) ^ 2 / ((0 - T' 1) * ((0 - col 1) * (0 - col 1))) = 49 / 3672 := by
+  intro lam cp B col T'
+  have h0 : T' 0 = -11 / 8 := by
+    simp only [T', solid1D, ext, lamU, lamL, lam, cp, B, col]
+    norm_num
+  have h1 : T' 1 = -54 / 17 := by
+    simp only [T', solid1D, ext, lamU, lamL, lam, cp, B, col]
+    norm_num
+  refine ⟨h0, h1, ?_, by norm_num, ?_, ?_⟩
+  · rw [h0, h1]; simp only [wEq, col]; norm_num
+  · rw [h0]; simp only [wEq]; norm_num
+  · rw [h1]; simp only [col]; norm_num
+
 /-! ### non-vacuity -/
 
 /-- the hypotheses of `nucleation_adiabatic` hold for the default 5 % sucrose solution
